@@ -24,6 +24,9 @@ def main():
     with ThreadPoolExecutor(6) as ex:
         for e, rc, tail in ex.map(one, entries):
             want = 0 if e["status"] == "fixed" else 1
+            if rc is None:
+                print(f"n/a {e['property']} {e['status']:6} (no single-case replay; covered by the check's fixed corpus) {e['signature'][:70]}")
+                continue
             ok = rc == want
             print(f"{'ok ' if ok else 'BAD'} {e['property']} {e['status']:6} rc={rc} {e['signature'][:70]}")
             if not ok:
